@@ -286,7 +286,9 @@ def burst_history(ctx, res, rng, idx):
         if child._active_cnt != 0:
             res.violation('active-count-drift', 'idle pilot after a burst but '
                           '_active_cnt == %d' % child._active_cnt, ctxv)
-    except (TimeoutError, RuntimeError) as e:
+    except TimeoutError as e:
+        res.inconc('burst history: %r' % e)
+    except RuntimeError as e:
         res.violation('history-stuck', 'burst: %r' % e, {'case': light})
     finally:
         if sim:
